@@ -15,6 +15,7 @@ import FastQr.Props.C02
 import FastQr.Props.C08
 import FastQr.Props.C15
 import FastQr.Model.Build
+import FastQr.Finite.TablesFormat
 
 namespace FastQr.Props.C01
 open FastQr Model Spec Finite Proofs
